@@ -1,6 +1,10 @@
 mod c24;
+mod c25;
 mod idx;
 use vkit::{Check, Level};
 fn main() {
-    vkit::main(&[Check { id: "C24", level: Level::Exploration, run: c24::run }]);
+    vkit::main(&[
+        Check { id: "C24", level: Level::Exploration, run: c24::run },
+        Check { id: "C25", level: Level::Exploration, run: c25::run },
+    ]);
 }
